@@ -3,6 +3,25 @@
 that match <regex> and <clause> to known_findings.json under finding <id>.
 usage: tools_findings.py PROP ID CLAUSE REGEX "what" """
 import json, re, sys
+if sys.argv[1] == "--rehash":
+    # record, for every listed key of PROP, the hash of the emitted code the finding is observed on (from the last run)
+    prop = sys.argv[2]
+    h = json.load(open(f"/verif/replays/{prop}/_last_violation_hashes.json"))
+    kf = json.load(open("/verif/known_findings.json"))
+    n = 0
+    for e in kf["findings"]:
+        if e["property"] != prop:
+            continue
+        m = {}
+        for k in e["keys"]:
+            v = h.get(k + "|" + e["clause"])
+            if v:
+                m[k] = v
+                n += 1
+        e["il_sha"] = m
+    json.dump(kf, open("/verif/known_findings.json", "w"), indent=1)
+    print(prop, "hashes recorded:", n)
+    sys.exit(0)
 prop, fid, clause, rx, what = sys.argv[1:6]
 v = json.load(open(f"/verif/replays/{prop}/_last_new_violations.json"))
 keys = sorted({x["key"] for x in v if x["clause"] == clause and re.search(rx, x["key"])})
